@@ -431,8 +431,12 @@ def write_evidence(ctx, coverage, level="model_checking"):
 
 def finish(ctx, coverage):
     write_evidence(ctx, coverage)
-    for kid, what in ctx.known:
-        print("KNOWN-FINDING: property=%s %s %s" % (ctx.prop, kid, what))
+    # every open listed finding of this property is announced, observed in this run or not
+    seen = {k for k, _ in ctx.known}
+    for f in load_known():
+        if f.get("property") == ctx.prop and f.get("status") == "open":
+            print("KNOWN-FINDING: property=%s %s %s [%s in this run]" % (ctx.prop, f["id"], f["what"],
+                  "observed" if f["id"] in seen else "not observed"))
     for what, replay in ctx.violations:
         print("VIOLATION property=%s replay=%s" % (ctx.prop, replay))
         log("  " + what)
